@@ -13,6 +13,7 @@ import (
 	"net/http"
 	"os"
 	"runtime/pprof"
+	"strings"
 	"sync"
 	"sync/atomic"
 	"syscall"
@@ -55,6 +56,11 @@ type childResult struct {
 	CPUMillis    int64    `json:"cpu_ms"`
 	WallMillis   int64    `json:"wall_ms"`
 	AfterCloseMS int64    `json:"after_close_ms"`
+	// when the deadline passed without an end: was a goroutine sleeping in handleData (playing a
+	// sample that lies in the future) or waiting for the stub server? If neither, the client is
+	// stalled: nothing will ever happen again until Close().
+	Sleeping  bool     `json:"sleeping"`
+	BlockedIn []string `json:"blocked_in,omitempty"`
 }
 
 type stubTransport struct {
@@ -217,21 +223,17 @@ func runChild(jobPath string) {
 	if err := c.Start(); err != nil {
 		res.WaitErr = "start: " + err.Error()
 	} else {
-		select {
-		case err := <-c.Wait():
-			res.WaitErr = errString(err)
-		case <-closedByPlan:
-			res.ClosedByPlan = true
-			t0 := time.Now()
-			select {
-			case err := <-c.Wait():
-				res.WaitErr = errString(err)
-				res.AfterCloseMS = time.Since(t0).Milliseconds()
-			case <-time.After(time.Duration(j.CloseDeadlineMS) * time.Millisecond):
-				res.Hang = true
-			}
-		case <-time.After(time.Duration(j.DeadlineMS) * time.Millisecond):
+		// Wait for the end. A client in which, twice in a row (0.5 s apart, after a grace period),
+		// no goroutine is downloading or waiting for a sample's time and no new request arrived
+		// cannot make progress any more without Close(): it is declared stalled before the deadline.
+		deadline := time.After(time.Duration(j.DeadlineMS) * time.Millisecond)
+		poll := time.NewTicker(500 * time.Millisecond)
+		defer poll.Stop()
+		idle, lastReq := 0, -1
+		ended := false
+		forceClose := func() {
 			res.NeededClose = true
+			res.Sleeping, res.BlockedIn = whereBlocked()
 			t0 := time.Now()
 			c.Close()
 			select {
@@ -240,6 +242,45 @@ func runChild(jobPath string) {
 				res.AfterCloseMS = time.Since(t0).Milliseconds()
 			case <-time.After(time.Duration(j.CloseDeadlineMS) * time.Millisecond):
 				res.Hang = true
+			}
+		}
+		for !ended {
+			select {
+			case err := <-c.Wait():
+				res.WaitErr = errString(err)
+				ended = true
+			case <-closedByPlan:
+				res.ClosedByPlan = true
+				t0 := time.Now()
+				select {
+				case err := <-c.Wait():
+					res.WaitErr = errString(err)
+					res.AfterCloseMS = time.Since(t0).Milliseconds()
+				case <-time.After(time.Duration(j.CloseDeadlineMS) * time.Millisecond):
+					res.Hang = true
+				}
+				ended = true
+			case <-poll.C:
+				if time.Since(start) < 1500*time.Millisecond {
+					continue
+				}
+				tr.mu.Lock()
+				nreq := tr.total
+				tr.mu.Unlock()
+				if sl, _ := whereBlocked(); !sl && nreq == lastReq {
+					idle++
+				} else {
+					idle = 0
+				}
+				lastReq = nreq
+				if idle < 2 {
+					continue
+				}
+				forceClose()
+				ended = true
+			case <-deadline:
+				forceClose()
+				ended = true
 			}
 		}
 		// Close after the end must be harmless too
@@ -275,4 +316,33 @@ func errString(err error) string {
 		return "<nil>"
 	}
 	return err.Error()
+}
+
+// whereBlocked inspects the goroutine dump: the gohlslib functions goroutines are parked in, and
+// whether one of them is the timed wait of clientTrack.handleData or an HTTP exchange.
+func whereBlocked() (bool, []string) {
+	var buf bytes.Buffer
+	pprof.Lookup("goroutine").WriteTo(&buf, 1)
+	sleeping := false
+	seen := map[string]bool{}
+	var fns []string
+	for _, l := range strings.Split(buf.String(), "\n") {
+		k := strings.Index(l, "gohlslib/v2.")
+		if k < 0 {
+			continue
+		}
+		f := strings.TrimSpace(l[k+len("gohlslib/v2."):])
+		if i := strings.Index(f, "+0x"); i > 0 {
+			f = f[:i]
+		}
+		if strings.Contains(f, "(*clientTrack).handleData") || strings.Contains(f, "downloadPlaylist") ||
+			strings.Contains(f, "downloadSegment") || strings.Contains(f, "downloadPreloadHint") {
+			sleeping = true
+		}
+		if !seen[f] && !strings.Contains(f, "clientRoutinePool") && len(fns) < 12 {
+			seen[f] = true
+			fns = append(fns, f)
+		}
+	}
+	return sleeping, fns
 }
